@@ -10,6 +10,8 @@
    Lang/ExcDecl.v (the exception classes named by except clauses and their file-scope declarations).
    Lang/EmitScope.v (C++ block scoping of function bodies: one declaration per name and scope; the block structure of the
    text _emit_block produces for every IR node kind).
+   Lang/CompScope.v (list comprehensions: the lambda's parameter scope, and the declarations caused by a sequence of assignments over
+   the var_types bracket of Lang/InferComp.v, against lexical scoping).
    The C++ type checker is not modelled: it is g++ itself, run by harness/props/c06.py. *)
 From Coq Require Import ZArith List Bool Sorting.Sorted.
 From RV Require Import Base.Wire Base.Text Lang.Escape Lang.Sections Proofs.EscapeP Proofs.SectionsP.
